@@ -1761,6 +1761,7 @@ func (t *Tree) CopyEdge(e *Edge, copy *Edge) {
 	copy.support = e.support
 	copy.pvalue = e.pvalue
 	copy.id = e.id
+	copy.comment = append([]string(nil), e.comment...)
 	if e.bitset != nil {
 		copy.bitset = e.bitset.Clone()
 	}
